@@ -1,43 +1,10 @@
-(* EditProofsKF.v -- C11: the class predicates of the three open known findings (boolean, mirrored by the
-   harness on the document before the call) and their witnesses: the faithful model shows the defect. *)
+(* EditProofsKF.v -- C11: the repaired findings.  For each, the code as it was (Model/EditV0.v) shows the defect on a
+   concrete document, and the repaired code (Model/Edit.v) behaves on the same document. *)
 From LV Require Import Base.Bytes Model.Obj Model.DocQ Model.PageTree Model.Traverse Model.Edit
   Model.StreamFilt Spec.AbstractDoc Proofs.EditProofs Proofs.EditProofsEx Model.EditV0.
 
 (* streams without a filter decode to themselves; the witnesses use nothing else *)
 Definition decode0 (sd : dict) (c : bytes) : bytes := c.
-
-(* ---- class C11-content-indirect: Contents is present and is neither a reference that directly names a
-   stream nor a direct array of such references ---- *)
-Definition is_stream_ref (m : objmap) (o : obj) : bool :=
-  match o with
-  | ORef i g => match lookup m (i, g) with Some (OStream _ _) => true | _ => false end
-  | _ => false
-  end.
-
-Definition contents_plain (m : objmap) (page : oid) : bool :=
-  match get_dictionary m page with
-  | Some pd => match dict_get pd K_Contents with
-               | None => true
-               | Some (OArr l) => forallb (is_stream_ref m) l
-               | Some o => is_stream_ref m o
-               end
-  | None => true
-  end.
-Definition KnownClass_content_indirect (d : doc) (page : oid) : bool := negb (contents_plain (d_objects d) page).
-
-(* ---- class C11-content-shared: a content stream of the page is used by another page, or twice ---- *)
-Fixpoint has_dup (l : list oid) : bool :=
-  match l with [] => false | x :: l' => mem_oid x l' || has_dup l' end.
-(* content stream ids are compared after following reference objects to the object they end at *)
-Definition resolve_id (m : objmap) (id : oid) : oid :=
-  match dereference m (ORef (fst id) (snd id)) with Some (Some r, _) => r | _ => id end.
-Definition content_ids (m : objmap) (page : oid) : list oid := map (resolve_id m) (get_page_contents m page).
-Definition KnownClass_content_shared (d : doc) (page : oid) : bool :=
-  let m := d_objects d in
-  let mine := content_ids m page in
-  has_dup mine ||
-  existsb (fun p => negb (oid_eqb (resolve_id m p) (resolve_id m page)) && existsb (fun i => mem_oid i mine) (content_ids m p)) (page_iter d) ||
-  (1 <? length (filter (oid_eqb page) (page_iter d)))%nat.
 
 (* ---- class C11-resources-shadow: no Resources of its own, but an ancestor provides a non-empty one ---- *)
 Definition KnownClass_resources_shadow (d : doc) (page : oid) : bool :=
@@ -72,17 +39,25 @@ Theorem resources_shadow_repaired_example :
              effective_resources (d_objects d') (4, 0)%N = Some [(K_Font, K_F1, ORef 6 0)].
 Proof. eexists. repeat split; vm_compute; reflexivity. Qed.
 
-(* change_page_content on page 3 whose stream is also page 4's: page 4 changes too *)
-Theorem content_shared_witness :
-  KnownClass_content_shared ex_doc (3, 0)%N = true /\
-  exists d', step O0 ex_doc (ChangePageContent (3, 0)%N (bs "BT ET")) = (d', OOk) /\
+(* C11-content-shared.  change_page_content on page 3 whose stream 5 is also page 4's.  BEFORE the repair (Model/EditV0.v) the
+   stream is rewritten in place: page 4 changes too *)
+Theorem content_shared_v0_witness :
+  exists d', change_page_content_v0 O0 ex_doc (3, 0)%N (bs "BT ET") = (d', OOk) /\
              page_content decode0 (d_objects ex_doc) (4, 0)%N = Some (bs "q Q") /\
              page_content decode0 (d_objects d') (4, 0)%N = Some (bs "BT ET").
-Proof.
-  split; [vm_compute; reflexivity|]. eexists. repeat split; vm_compute; reflexivity.
-Qed.
+Proof. eexists. repeat split; vm_compute; reflexivity. Qed.
 
-(* page 3 of this variant has Contents -> 8 0 R, an array object [5 0 R]: add_page_contents loses the old content *)
+(* the repaired code on the same document: stream 5 is left alone, page 3 gets the new stream 8, page 4 shows what it showed *)
+Theorem content_shared_repaired_example :
+  is_content_stream_of_another_page ex_doc (5, 0)%N (3, 0)%N = true /\
+  exists d', step O0 ex_doc (ChangePageContent (3, 0)%N (bs "BT ET")) = (d', OOk) /\
+             page_content decode0 (d_objects d') (3, 0)%N = Some (bs "BT ET") /\
+             page_content decode0 (d_objects d') (4, 0)%N = Some (bs "q Q") /\
+             lookup (d_objects d') (5, 0)%N = lookup (d_objects ex_doc) (5, 0)%N /\
+             lookup (d_objects d') (8, 0)%N = Some (new_stream (bs "BT ET")).
+Proof. split; [vm_compute; reflexivity|]. eexists. repeat split; vm_compute; reflexivity. Qed.
+
+(* C11-content-indirect.  Page 3 of this variant has Contents -> 8 0 R, an array object [5 0 R] *)
 Definition ex_doc_ind : doc :=
   {| d_version := d_version ex_doc; d_binary_mark := []; d_trailer := d_trailer ex_doc;
      d_objects := insert (insert (d_objects ex_doc) (3, 0)%N
@@ -90,26 +65,37 @@ Definition ex_doc_ind : doc :=
                          (8, 0)%N (OArr [ORef 5 0]);
      d_max_id := 8 |}.
 
-Theorem content_indirect_witness :
-  KnownClass_content_indirect ex_doc_ind (3, 0)%N = true /\
-  exists d', step O0 ex_doc_ind (AddPageContents (3, 0)%N (bs "BT ET")) = (d', OOk) /\
-             page_content decode0 (d_objects ex_doc_ind) (3, 0)%N = Some (bs "q Q") /\
-             get_page_content O0 (d_objects ex_doc_ind) (3, 0)%N = Some (bs "q Q") /\
-             page_content decode0 (d_objects d') (3, 0)%N = None /\
-             get_page_content O0 (d_objects d') (3, 0)%N = Some (bs "BT ET").
-Proof.
-  split; [vm_compute; reflexivity|]. eexists. repeat split; vm_compute; reflexivity.
-Qed.
+(* BEFORE the repair (Model/EditV0.v): add_page_contents wraps the reference in a new array whose first item is no stream --
+   the old content is gone (for the reader get_page_content, and the abstract content is undefined) -- and
+   change_page_content changes nothing at all *)
+Theorem content_indirect_v0_witness :
+  (exists d', add_page_contents_v0 ex_doc_ind (3, 0)%N (bs "BT ET") = (d', OOk) /\
+              page_content decode0 (d_objects ex_doc_ind) (3, 0)%N = Some (bs "q Q") /\
+              get_page_content O0 (d_objects ex_doc_ind) (3, 0)%N = Some (bs "q Q") /\
+              page_content decode0 (d_objects d') (3, 0)%N = None /\
+              get_page_content O0 (d_objects d') (3, 0)%N = Some (bs "BT ET")) /\
+  change_page_content_v0 O0 ex_doc_ind (3, 0)%N (bs "BT ET") = (ex_doc_ind, OOk).
+Proof. split; [eexists; repeat split; vm_compute; reflexivity | vm_compute; reflexivity]. Qed.
 
-(* outside the classes the same operations behave, on the same document *)
+(* the repaired code on the same document: the page shows the old content followed by the new one (abstract content and
+   reader agree), page 4 is untouched; change_page_content makes the page show exactly the new content (stream 5 is page
+   4's as well, so it is left alone) *)
+Theorem content_indirect_repaired_example :
+  (exists d', step O0 ex_doc_ind (AddPageContents (3, 0)%N (bs "BT ET")) = (d', OOk) /\
+              page_content decode0 (d_objects d') (3, 0)%N = Some (bs "q Q" ++ bs "BT ET") /\
+              get_page_content O0 (d_objects d') (3, 0)%N = Some (bs "q Q" ++ bs "BT ET") /\
+              page_content decode0 (d_objects d') (4, 0)%N = Some (bs "q Q")) /\
+  (exists d', step O0 ex_doc_ind (ChangePageContent (3, 0)%N (bs "BT ET")) = (d', OOk) /\
+              page_content decode0 (d_objects d') (3, 0)%N = Some (bs "BT ET") /\
+              page_content decode0 (d_objects d') (4, 0)%N = Some (bs "q Q")).
+Proof. split; eexists; repeat split; vm_compute; reflexivity. Qed.
+
+(* the direct shapes behave as before the repair *)
 Theorem content_ok_example :
-  KnownClass_content_indirect ex_doc (3, 0)%N = false /\
   exists d', step O0 ex_doc (AddPageContents (3, 0)%N (bs "BT ET")) = (d', OOk) /\
              page_content decode0 (d_objects d') (3, 0)%N = Some (bs "q Q" ++ bs "BT ET") /\
              page_content decode0 (d_objects d') (4, 0)%N = Some (bs "q Q").
-Proof.
-  split; [vm_compute; reflexivity|]. eexists. repeat split; vm_compute; reflexivity.
-Qed.
+Proof. eexists. repeat split; vm_compute; reflexivity. Qed.
 
 (* ---------- the pinned code (Model/EditV0.v): the four repaired delete_object defects, one witness ---------- *)
 From LV Require Import Model.EditV0 Spec.RenumberSpec.
